@@ -5,10 +5,16 @@
 set -u
 SD="$(cd "$1" && pwd)"; shift
 IDS="$*"
+V="$(cd "$(dirname "${BASH_SOURCE[0]}")/.." && pwd)"   # the verification tree this script belongs to
+R="${IPT_REPO:-/repo}"                                  # the repository copy the change is applied to
 WT=/tmp/ipt-seed-wt
 export CARGO_NET_OFFLINE=true CARGO_TERM_COLOR=never
+if [ -n "${SEED_CHECKS_ONLY:-}" ]; then
+  E="$SD/eval_checks_only.json"; rm -f "$E"
+else
 if [ ! -d "$WT" ]; then git -C /repo worktree add -q --detach "$WT" HEAD || exit 2; fi
 cd "$WT" && git checkout -q --detach "$(git -C /repo rev-parse HEAD)" && git checkout -q -- . && rm -f tests/zz_demo.rs
+fi
 res() { python3 - "$@" <<'PY'
 import json,sys
 p=sys.argv[1]; k=sys.argv[2]; v=sys.argv[3]
@@ -19,6 +25,7 @@ except Exception: pass
 d[k]=v; json.dump(d,open(p,'w'),indent=1)
 PY
 }
+if [ -z "${SEED_CHECKS_ONLY:-}" ]; then
 E="$SD/eval.json"; rm -f "$E"
 res "$E" repo_head "\"$(git -C /repo rev-parse --short HEAD)\""
 # demo without the change
@@ -32,16 +39,17 @@ res "$E" suite_summary "\"$(grep -E '^test result' /tmp/seed_suite.log | awk '{p
 cp "$SD/zz_demo.rs" tests/zz_demo.rs
 if timeout 900 cargo test --offline --test zz_demo >/tmp/seed_demo_mut.log 2>&1; then res "$E" demo_fails_with_change false; else res "$E" demo_fails_with_change true; fi
 rm -f tests/zz_demo.rs; git checkout -q -- .
-# checks against /repo
-if [ -n "$(git -C /repo status --porcelain)" ]; then echo "/repo not clean"; exit 2; fi
-git -C /repo apply "$SD/patch.diff" || exit 2
+fi
+# checks against the repository (copy)
+if [ -n "$(git -C "$R" status --porcelain)" ]; then echo "$R not clean"; exit 2; fi
+git -C "$R" apply "$SD/patch.diff" || exit 2
 for id in $IDS; do
-  cp /verif/evidence/$id.json /tmp/seed_evidence_$id.json 2>/dev/null
-  out=$(cd /verif && timeout 1500 ./run check "$id" quick 2>&1); rc=$?
+  cp "$V/evidence/$id.json" /tmp/seed_evidence_$id.json 2>/dev/null
+  out=$(cd "$V" && IPT_REPO="$R" timeout 1500 ./run check "$id" quick 2>&1); rc=$?
   nviol=$(echo "$out" | grep -c '^VIOLATION')
   first=$(echo "$out" | grep -m1 -A1 '^VIOLATION' | tail -1 | cut -c1-300 | tr -d '"\\' )
   res "$E" "check_$id" "{\"exit\": $rc, \"violation_lines\": $nviol, \"first\": \"$first\"}"
   echo "  $id rc=$rc violations=$nviol"
-  cp /tmp/seed_evidence_$id.json /verif/evidence/$id.json 2>/dev/null
+  cp /tmp/seed_evidence_$id.json "$V/evidence/$id.json" 2>/dev/null
 done
-git -C /repo checkout -q -- .
+git -C "$R" checkout -q -- .
